@@ -92,7 +92,7 @@ SPECS["Header::deserialise"] = {"props": ["C03"], "contract": """    requires ol
         r is Ok ==> r->Ok_0 == header_unpack(r->Ok_0.id, old(buffer).octets@[old(buffer).position + 2], old(buffer).octets@[old(buffer).position + 3]), // [C03,C04:header_flags_read_as_rfc1035]
         r is Err && old(buffer).position + 2 <= old(buffer).octets@.len() ==> err_id(r->Err_0) == Some(be16(old(buffer).octets@[old(buffer).position as int], old(buffer).octets@[old(buffer).position + 1])), // [C03:error_carries_id]
         r is Err && old(buffer).position + 2 > old(buffer).octets@.len() ==> err_id(r->Err_0) is None,"""}
-SPECS["Header::deserialise"]["anchors"] = [{"after": "let flags2 = buffer.next_u8().ok_or(Error::HeaderTooShort(id))?;", "proof": "proof { lemma_header_decode_bits(flags1, flags2); }"}]
+SPECS["Header::deserialise"]["anchors"] = [{"after": "Ok(Self {", "nth": -1, "at": "before", "proof": "proof { lemma_header_decode_bits(flags1, flags2); }"}]
 SPECS["Question::deserialise"] = {"props": ["C03", "C04"], "contract": """    requires old(buffer).wf(),
     ensures """ + BUF_FRAME + """
         r is Ok ==> r->Ok_0.name.wf(), // [C03,C16:decoded_name_wf]
